@@ -104,7 +104,7 @@ def contracts():
             &&& envmap(t.0.env) == proc_env().union_prefer_right(envmap(self.env)).union_prefer_right(envmap(id.env))
             // the hooks of the configured challenge type are run, and the matching clean type is handed back
             &&& t.1 == clean_type(id.challenge)
-            &&& final(w).fs.events == old(w).fs.events.push(FsEvent::Hook { ty: crate::hooks::hook_type_id(start_type(id.challenge)), data: crate::hooks::hook_data_id(t.0) })
+            &&& final(w).fs.events == old(w).fs.events.push(FsEvent::Hook { ty: crate::hooks::hook_type_id(start_type(id.challenge)), data: crate::hooks::hook_data_id(t.0), ok: true })
         }), //@C05.challenge_hooks_of_the_configured_type_get_the_proof,C10.env_identifier_over_certificate_over_daemon
         r is Err ==> final(w).fs.events == old(w).fs.events || exists|e: FsEvent| final(w).fs.events == old(w).fs.events.push(e),
 """, rewrites=[("T-MAP", r"env: HashMap::new\(\)", "env: crate::venv::new_map()")] + ENV_IDIOMS,
@@ -117,7 +117,7 @@ def contracts():
     c["call_challenge_hooks_clean"] = FnSpec(ret="r", ghost=True, sig="""
     ensures final(w).clock == old(w).clock, final(w).admissions == old(w).admissions, final(w).net == old(w).net,
         final(w).fs.files == old(w).fs.files, final(w).fs.modes == old(w).fs.modes,
-        final(w).fs.events == old(w).fs.events.push(FsEvent::Hook { ty: crate::hooks::hook_type_id(hook_type), data: crate::hooks::hook_data_id(*data) }), //@C10.clean_hooks_get_the_recorded_data
+        final(w).fs.events == old(w).fs.events.push(FsEvent::Hook { ty: crate::hooks::hook_type_id(hook_type), data: crate::hooks::hook_data_id(*data), ok: r is Ok }), //@C10.clean_hooks_get_the_recorded_data
 """)
     c["call_post_operation_hooks"] = FnSpec(ret="r", ghost=True, sig="""
     ensures final(w).clock == old(w).clock, final(w).admissions == old(w).admissions, final(w).net == old(w).net,
@@ -126,7 +126,7 @@ def contracts():
             && d.identifiers@.len() == self.identifiers@.len()
             && (forall|i: int| 0 <= i < d.identifiers@.len() ==> (#[trigger] d.identifiers@[i])@ == self.identifiers@[i].value@)
             && envmap(d.env) == proc_env().union_prefer_right(envmap(self.env))
-            && final(w).fs.events == old(w).fs.events.push(FsEvent::Hook { ty: crate::hooks::hook_type_id(HookType::PostOperation), data: crate::hooks::hook_data_id(d) }), //@C07.post_operation_data_reports_status,C10.post_operation_hook_data
+            && final(w).fs.events == old(w).fs.events.push(FsEvent::Hook { ty: crate::hooks::hook_type_id(HookType::PostOperation), data: crate::hooks::hook_data_id(d), ok: true }), //@C07.post_operation_data_reports_status,C10.post_operation_hook_data
 """, rewrites=[("T-MAP", r"env: HashMap::new\(\)", "env: crate::venv::new_map()"),
                ("T-ITER", r"self\s*\.identifiers\s*\.iter\(\)\s*\.map\(\|d\| d\.value\.to_owned\(\)\)\s*\.collect::<Vec<String>>\(\)", "crate::certificate::collect_values(&self.identifiers)")],
         at=[("before_tail", None, 1, """
@@ -244,7 +244,7 @@ impl HookEnvData for PostOperationHookData {
 pub fn call<L: HasLogger, T: HookEnvData>(logger: &L, hooks: &[Hook], data: &T, hook_type: HookType, Tracked(w): Tracked<&mut World>) -> (r: Result<(), Error>)
     ensures final(w).clock == old(w).clock, final(w).admissions == old(w).admissions, final(w).net == old(w).net,
         final(w).fs.files == old(w).fs.files, final(w).fs.modes == old(w).fs.modes,
-        final(w).fs.events == old(w).fs.events.push(FsEvent::Hook { ty: hook_type_id(hook_type), data: hook_data_id(*data) }),
+        final(w).fs.events == old(w).fs.events.push(FsEvent::Hook { ty: hook_type_id(hook_type), data: hook_data_id(*data), ok: r is Ok }),
 { unimplemented!() }
 """
 
